@@ -91,6 +91,7 @@ m = {
  'hooks': {'guard': 'verif', 'enable': 'go build -tags verif (the check script passes -tags verif to every build of the harness and of cmd/cue)',
            'baseline_off_cmd': BASE['cmd'], 'source_commits': hook_commits, 'add_only': True},
  'engines': [
+   {'name': 'jsonschema_oracle', 'path': '/verif/oracles/jsonschema_oracle.py', 'serves_properties': ['C13'], 'kind_free_text': 'python-jsonschema (Draft 2020-12) behind a line protocol, run with python3-vt as a pool of child processes of the C13 monitor; the independent reference for JSON Schema validity'},
    {'name': 'vcheck', 'path': '/verif/harness/cmd/vcheck', 'serves_properties': sorted(CHECKS), 'kind_free_text': 'Go monitor binary (module cuelang.org/go/verifh, replace cuelang.org/go => /repo) rebuilt from the working tree on every check; generators, reference models, event-log checkers, evidence writer'},
  ],
  'checks': checks,
